@@ -4,6 +4,8 @@ import (
 	"encoding/json"
 	"fmt"
 	"io"
+	"strconv"
+	"strings"
 
 	"github.com/tormoder/fit/dyncrc16"
 
@@ -28,11 +30,30 @@ func init() {
 		ID:    "C14",
 		Level: "model_checking",
 		Rule: "explicit-state: all 65536 register states (each reached on the implementation through New().Write of its unique 2-byte prefix) x all 256 next bytes, compared with a bitwise CRC-16/ARC; " +
-			"Reset and residue from every state; all byte strings of length<=3 (quick: <=2 plus stride on 3) under every write partition; long strings under every 1- and 2-cut partition; single Write / Checksum calls of sizes 2^k-1, 2^k, 2^k+1 for k=5..20. " +
+			"Reset and residue from every state; all byte strings of length<=3 (quick: <=2 plus stride on 3) under every write partition; long strings under every 1- and 2-cut partition; single Write / Checksum calls of sizes 2^k-1, 2^k, 2^k+1 for k=5..20; first use: Checksum / Write / byte-wise Write / Sum on 10 lengths as the first call a fresh process makes into the package, and ordered pairs of such calls (quick: lengths 255..4096; thorough: all), one process per history. " +
 			"distinct = distinct (state,byte)->state' transitions observed on the implementation",
 		Assumptions: []string{"reference is the textbook bitwise reflected CRC-16 (poly 0xA001, init 0, no final xor)"},
 		Run:         runC14,
+		Sub:         c14Sub,
 		Replay: func(raw json.RawMessage) (string, error) {
+			var fu struct {
+				FirstUse []string `json:"first_use"`
+			}
+			if json.Unmarshal(raw, &fu) == nil && len(fu.FirstUse) > 0 {
+				out, err := vx.SubRun("C14", fu.FirstUse...)
+				if err != nil {
+					return "", err
+				}
+				lines := strings.Fields(string(out))
+				for i := 0; i+1 < len(fu.FirstUse); i += 2 {
+					n, _ := strconv.Atoi(fu.FirstUse[i+1])
+					want := fmt.Sprintf("%04x", fitmodel.CRC(c14Pattern(n)))
+					if i/2 >= len(lines) || lines[i/2] != want {
+						return "", fmt.Errorf("fresh process %v: got %v, reference for call %d is %s", fu.FirstUse, lines, i/2+1, want)
+					}
+				}
+				return "ok", nil
+			}
 			var r c14Replay
 			if err := json.Unmarshal(raw, &r); err != nil {
 				return "", err
@@ -60,6 +81,7 @@ func init() {
 }
 
 func runC14(w *vx.W) {
+	c14FirstUse(w)
 	// inverse table: state -> 2-byte prefix, from the reference model
 	var prefix [65536][2]byte
 	var seen [65536]bool
@@ -319,5 +341,111 @@ func runC14(w *vx.W) {
 			bad("independence", long[:300], nil, fitmodel.CRC(long[:200]), h1.Sum16())
 		}
 		w.Eval(1)
+	}
+}
+
+// ---- first use: the package's entry points called as the very first thing a process does with it (lazily built
+// tables must be built by every entry point), and every ordered pair of such calls, each history in a fresh process.
+
+var c14FirstAPIs = []string{"Checksum", "Write", "WriteBytewise", "Sum"}
+var c14FirstLens = []int{0, 1, 2, 255, 256, 511, 512, 513, 4096, 70001}
+
+func c14Pattern(n int) []byte {
+	b := make([]byte, n)
+	for i := range b {
+		b[i] = byte(i*131 + i>>8 + 7)
+	}
+	return b
+}
+
+// c14Sub: args = api len [api len ...]; prints one hex sum per call.
+func c14Sub(args []string) {
+	for i := 0; i+1 < len(args); i += 2 {
+		n, _ := strconv.Atoi(args[i+1])
+		data := c14Pattern(n)
+		var sum uint16
+		switch args[i] {
+		case "Checksum":
+			sum = dyncrc16.Checksum(data)
+		case "Write":
+			h := dyncrc16.New()
+			h.Write(data)
+			sum = h.Sum16()
+		case "WriteBytewise":
+			h := dyncrc16.New()
+			for j := range data {
+				h.Write(data[j : j+1])
+			}
+			sum = h.Sum16()
+		case "Sum":
+			h := dyncrc16.New()
+			h.Write(data)
+			s := h.Sum([]byte{0xEE})
+			if len(s) != 3 || s[0] != 0xEE {
+				fmt.Println("bad-sum-shape")
+				continue
+			}
+			sum = uint16(s[1])<<8 | uint16(s[2])
+		}
+		fmt.Printf("%04x\n", sum)
+	}
+}
+
+func c14FirstUse(w *vx.W) {
+	type call struct {
+		api string
+		n   int
+	}
+	var calls []call
+	for _, a := range c14FirstAPIs {
+		for _, n := range c14FirstLens {
+			if a == "WriteBytewise" && n > 4096 {
+				continue
+			}
+			calls = append(calls, call{a, n})
+		}
+	}
+	var hists [][]call
+	for _, c := range calls {
+		hists = append(hists, []call{c})
+	}
+	for _, a := range calls {
+		for _, b := range calls {
+			if w.Quick() && !(a.n >= 255 && b.n >= 255 && a.n <= 4096 && b.n <= 4096) {
+				continue // quick tier: pairs around the 256/512/4096 boundaries; thorough: all pairs
+			}
+			hists = append(hists, []call{a, b})
+		}
+	}
+	for i, h := range hists {
+		if !w.Mine(int64(i)) {
+			continue
+		}
+		var args []string
+		var names []string
+		for _, c := range h {
+			args = append(args, c.api, strconv.Itoa(c.n))
+			names = append(names, fmt.Sprintf("%s(%d bytes)", c.api, c.n))
+		}
+		out, err := vx.SubRun("C14", args...)
+		w.Eval(int64(len(h)))
+		w.Trace(1)
+		w.Fam(fmt.Sprintf("first-use-histories-len%d", len(h)), 1)
+		if err != nil {
+			w.Violation("first-use/crash", fmt.Sprintf("fresh process running %v died: %v", names, err), map[string]interface{}{"first_use": args})
+			continue
+		}
+		lines := strings.Fields(string(out))
+		for j, c := range h {
+			want := fmt.Sprintf("%04x", fitmodel.CRC(c14Pattern(c.n)))
+			got := "missing"
+			if j < len(lines) {
+				got = lines[j]
+			}
+			if got != want {
+				w.Violation("first-use/"+c.api, fmt.Sprintf("fresh process, calls %v: call #%d returns %s, reference %s", names, j+1, got, want), map[string]interface{}{"first_use": args})
+				break
+			}
+		}
 	}
 }
